@@ -25,9 +25,11 @@ CONFIGS = {
     "thorough": [dict(universe="u1", MaxMsgs=3, MaxRestarts=1, MaxFaults=1, MaxCrashes=0),
                  dict(universe="deep", MaxMsgs=3, MaxRestarts=1, MaxFaults=0, MaxCrashes=0),
                  dict(universe="retarget", MaxMsgs=3, MaxRestarts=1, MaxFaults=0, MaxCrashes=0),
-                 dict(universe="quick", MaxMsgs=4, MaxRestarts=1, MaxFaults=0, MaxCrashes=0)],
+                 dict(universe="quick", MaxMsgs=4, MaxRestarts=1, MaxFaults=0, MaxCrashes=0),
+                 dict(universe="stale", MaxMsgs=3, MaxRestarts=1, MaxFaults=0, MaxCrashes=0)],
     "deep": [dict(universe="deep", MaxMsgs=3, MaxRestarts=0, MaxFaults=0, MaxCrashes=0)],
     "retarget": [dict(universe="retarget", MaxMsgs=3, MaxRestarts=0, MaxFaults=0, MaxCrashes=0)],
+    "stale": [dict(universe="stale", MaxMsgs=3, MaxRestarts=0, MaxFaults=0, MaxCrashes=0)],
     "crash": [dict(universe="u1", MaxMsgs=2, MaxRestarts=0, MaxFaults=0, MaxCrashes=1)],
     "crash3": [dict(universe="u1", MaxMsgs=3, MaxRestarts=0, MaxFaults=0, MaxCrashes=1)],
     "faults": [dict(universe="u1", MaxMsgs=3, MaxRestarts=0, MaxFaults=1, MaxCrashes=0)],
@@ -182,6 +184,9 @@ def run(prop_id, tier, seed, replay=None):
             if tier == "quick" and prop_id in ("C01", "C02"):
                 # validity under other chain parameters / deep forks matters to these two
                 cfgs = cfgs + CONFIGS["deep"] + CONFIGS["retarget"]
+            if tier == "quick" and prop_id == "C02":
+                # "not current" (tip older than 24 h): whom the client listens to while it is syncing an old chain
+                cfgs = cfgs + CONFIGS["stale"]
         runs = [run_one(prop_id, c, rng, os.path.join(sc, "r%d" % i), replay) for i, c in enumerate(cfgs)]
         rc = 0
         known = {}
